@@ -42,6 +42,7 @@ func runC17(p *core.Program, r *core.Report) {
 	c17R12(p, r)
 	c17R13(p, r)
 	c17R14(p, r)
+	c17R15(p, r)
 }
 
 // c17R8: on-demand generation of same-package dependencies.
@@ -1216,5 +1217,50 @@ func c17R14(p *core.Program, r *core.Report) {
 	}
 	if n == 0 {
 		r.Anchor(rule, "the constant template of devpkg/deepcopygen that declares DeepCopyObject")
+	}
+}
+
+// c17R15: "with and without the gengo:deepcopy:interfaces tag", whichever way a type is reached (dispatched by the
+// framework, or generated on demand as the dependency of another type - it is marked processed either way and never
+// generated twice): the per-type worker reads the tags of the type it generates itself. The map in which the interfaces
+// tag is looked up is the result of Context.Doc for the Obj() of the worker's own type parameter, taken inside the
+// worker - not something handed in by a caller that may have none.
+func c17R15(p *core.Program, r *core.Report) {
+	const rule = "R15"
+	r.Floor(rule, 1)
+	w := p.FuncByName("devpkg/deepcopygen", generatorWorkerName(p, "devpkg/deepcopygen", "(*deepcopyGen).generateType"))
+	if w == nil {
+		r.Anchor(rule, "the per-type worker of the deepcopy generator")
+		return
+	}
+	info := w.Info()
+	n := 0
+	ast.Inspect(w.Body, func(m ast.Node) bool {
+		ix, ok := m.(*ast.IndexExpr)
+		if !ok {
+			return true
+		}
+		k, isC := core.ConstString(info, ix.Index)
+		if !isC || !strings.HasPrefix(k, "gengo:deepcopy") {
+			return true
+		}
+		n++
+		good := false
+		src, _ := core.Resolve(info, w.Body, ix.X)
+		if c, isCall := ast.Unparen(src).(*ast.CallExpr); isCall && strings.HasSuffix(core.CalleeName(info, c), ").Doc") && len(c.Args) == 1 {
+			// Doc(<named>.Obj()) with <named> the worker's type parameter (possibly re-assigned to its Origin())
+			a0, _ := core.Resolve(info, w.Body, c.Args[0]) // `obj := named.Obj(); c.Doc(obj)`
+			if oc, isObj := ast.Unparen(a0).(*ast.CallExpr); isObj && strings.HasSuffix(core.CalleeName(info, oc), ").Obj") {
+				if v := core.VarOf(info, recvOf(oc)); v != nil && isParamOf(w, v) {
+					good = true
+				}
+			}
+		}
+		r.Check(good, rule, w, "the tags consulted are those of the type being generated: "+core.ExprStr(ix), ix.Pos(), "tags come from Doc(<the worker's type>.Obj()) inside the worker",
+			"the worker looks `"+k+"` up in a map it did not read for the type at hand (handed in by the caller, nil for dependencies): a tagged type that is first reached as a field of another type is generated without the tagged methods and, being marked processed, never gets them")
+		return true
+	})
+	if n == 0 {
+		r.Anchor(rule, "lookup of a gengo:deepcopy tag in the worker")
 	}
 }
